@@ -134,7 +134,7 @@ func c03Initiator(rc *RC) {
 			adv = append(adv, n)
 		}
 	}
-	muts := []string{"none", "none", "none", "premature-success-empty", "premature-success-payload", "final-in-challenge", "failure", "foreign-ns", "bad-base64", "wrong-signature", "equals", "empty-challenge", "challenge-after-done"}
+	muts := []string{"none", "none", "none", "premature-success-empty", "premature-success-payload", "final-in-challenge", "failure", "foreign-ns", "bad-base64", "wrong-signature", "equals", "empty-challenge", "challenge-after-done", "failure-malformed", "failure-odd-content"}
 	plan := make([]string, 6)
 	for i := range plan {
 		plan[i] = muts[ch.Int("script", len(muts))]
@@ -329,7 +329,7 @@ func c03Initiator(rc *RC) {
 				if el == "success" {
 					el, pendingFinal = "challenge", true
 				}
-			case "failure":
+			case "failure", "failure-malformed", "failure-odd-content":
 				el = "failure"
 			case "foreign-ns":
 				ns = "urn:other"
@@ -347,7 +347,15 @@ func c03Initiator(rc *RC) {
 				data = ""
 			}
 			if el == "failure" {
-				fmt.Fprintf(sc, `<failure xmlns='%s'><not-authorized/></failure>`, ns)
+				switch mut {
+				case "failure-malformed":
+					// content that is not well-formed: whatever the decoder makes of it, it is not a success
+					fmt.Fprintf(sc, `<failure xmlns='%s'><not-authorized></failure>`, ns)
+				case "failure-odd-content":
+					fmt.Fprintf(sc, `<failure xmlns='%s'>text<unknown-condition xmlns='urn:x'><deep/></unknown-condition><text xml:lang='en'>a</text><text>b</text></failure>`, ns)
+				default:
+					fmt.Fprintf(sc, `<failure xmlns='%s'><not-authorized/></failure>`, ns)
+				}
 				finished = true
 			} else {
 				fmt.Fprintf(sc, `<%s xmlns='%s'>%s</%s>`, el, ns, data, el)
